@@ -212,23 +212,48 @@ Qed.
 Lemma in_rel cols x : In x (rel_columns cols) <-> In x cols /\ is_rel x = true.
 Proof. unfold rel_columns. apply filter_In. Qed.
 
-Lemma in_diagonal cols label a b : In (a, b) (diagonal cols label) <-> a = b /\ In a cols /\ a <> label.
+Lemma listedb_In p l : listedb p l = true <-> In p l.
+Proof.
+  unfold listedb. rewrite existsb_exists. split.
+  - intros [q [Hq E]]. apply pair_eqb_eq in E. subst. exact Hq.
+  - intros H. exists p. split; [exact H|apply pair_eqb_refl].
+Qed.
+
+Lemma in_diagonal base cols label a b :
+  In (a, b) (diagonal base cols label) <-> a = b /\ In a cols /\ a <> label /\ ~ In (a, a) base.
 Proof.
   unfold diagonal. rewrite in_map_iff. split.
   - intros [c [E H]]. inversion E; subst. apply filter_In in H. destruct H as [H1 H2].
-    split; [reflexivity|]. split; [exact H1|]. apply str_eqb_neq. destruct (str_eqb b label); [discriminate|reflexivity].
-  - intros [<- [H1 H2]]. exists a. split; [reflexivity|]. apply filter_In. split; [exact H1|].
-    apply str_eqb_neq in H2. rewrite H2. reflexivity.
+    apply andb_true_iff in H2. destruct H2 as [H2 H3]. apply negb_true_iff in H2, H3.
+    split; [reflexivity|]. split; [exact H1|]. split; [apply str_eqb_neq; exact H2|].
+    intros Hin. apply listedb_In in Hin. congruence.
+  - intros [<- [H1 [H2 H3]]]. exists a. split; [reflexivity|]. apply filter_In. split; [exact H1|].
+    apply str_eqb_neq in H2. rewrite H2. cbn [negb andb]. apply negb_true_iff.
+    destruct (listedb (a, a) base) eqn:E; [apply listedb_In in E; contradiction|reflexivity].
 Qed.
 
 Lemma uin_app p l1 l2 : uin p (l1 ++ l2) <-> uin p l1 \/ uin p l2.
 Proof. unfold uin. rewrite !in_app_iff. tauto. Qed.
 
-Lemma uin_diagonal cols label a b : uin (a, b) (diagonal cols label) <-> a = b /\ In a cols /\ a <> label.
+Lemma uin_diagonal base cols label a b :
+  uin (a, b) (diagonal base cols label) <-> a = b /\ In a cols /\ a <> label /\ ~ In (a, a) base.
 Proof.
   unfold uin, swapp. cbn [fst snd]. rewrite !in_diagonal. split.
   - intros [H|[<- H]]; [exact H|]. split; [reflexivity|exact H].
   - intros H. left. exact H.
+Qed.
+
+(* base list plus the not-yet-listed diagonal: as a set, the base plus every non-label self-pair *)
+Lemma uin_with_diagonal base cols label a b :
+  uin (a, b) (base ++ diagonal base cols label) <-> uin (a, b) base \/ (a = b /\ In a cols /\ a <> label).
+Proof.
+  rewrite uin_app, uin_diagonal. split.
+  - intros [H|[H1 [H2 [H3 _]]]]; [left; exact H|right; tauto].
+  - intros [H|[<- [H2 H3]]]; [left; exact H|].
+    destruct (listedb (a, a) base) eqn:E.
+    + left. left. apply listedb_In. exact E.
+    + right. split; [reflexivity|]. split; [exact H2|]. split; [exact H3|].
+      intros Hin. apply listedb_In in Hin. congruence.
 Qed.
 
 (* ---------- the three modes ---------- *)
@@ -246,7 +271,7 @@ Theorem cands_pairwise cols h tro label :
   is_3mr h = false -> is_tonly tro = false ->
   forall a b, uin (a, b) (candidates cols h tro label) <-> In a cols /\ In b cols.
 Proof.
-  intros H3 Ht a b. unfold candidates. rewrite H3, Ht. rewrite uin_app, uin_cwr2, uin_diagonal. split.
+  intros H3 Ht a b. unfold candidates. rewrite H3, Ht. rewrite uin_with_diagonal, uin_cwr2. split.
   - intros [H|[<- [H _]]]; tauto.
   - intros H. left. exact H.
 Qed.
@@ -274,7 +299,7 @@ Proof.
   - rewrite uin_app, uin_cwr2, !in_non_rel, uin_rel_label. split.
     + intros [H|[H|H]]; [left; tauto|right; left; exact H|right; right; left; exact H].
     + intros [H|[H|[H|[H _]]]]; [left; tauto|right; left; exact H|right; right; exact H|discriminate].
-  - rewrite !uin_app, uin_cwr2, !in_non_rel, uin_rel_label, uin_diagonal. split.
+  - rewrite uin_with_diagonal, uin_app, uin_cwr2, !in_non_rel, uin_rel_label. split.
     + intros [[H|[H|H]]|H]; [left; tauto|right; left; exact H|right; right; left; exact H|right; right; right; tauto].
     + intros [H|[H|[H|[_ H]]]]; [left; left; tauto|left; right; left; exact H|left; right; right; exact H|right; exact H].
 Qed.
@@ -345,29 +370,63 @@ Proof.
   unfold non_rel_columns. eapply Permutation_NoDup; [symmetry; apply sort_str_perm|apply dedup_nodup].
 Qed.
 
-(* target-only (either family): the candidate list is duplicate-free and holds one orientation of each pair *)
-Theorem cands_once cols h tro label : NoDup cols -> is_tonly tro = true ->
-  NoDup (candidates cols h tro label) /\
-  (forall a b, In (a, b) (candidates cols h tro label) -> In (b, a) (candidates cols h tro label) -> a = b).
+Definition once (l : list pair) : Prop := NoDup l /\ (forall a b, In (a, b) l -> In (b, a) l -> a = b).
+
+Lemma once_cwr2 (l : list str) : NoDup l -> once (cwr2 l).
+Proof. intros H. split; [apply cwr2_nodup; exact H|intros a b; apply cwr2_orient; exact H]. Qed.
+
+Lemma once_filter f l : once l -> once (filter f l).
 Proof.
-  intros Hnd Ht. unfold candidates. rewrite Ht. destruct (is_3mr h).
-  - split.
-    + apply nodup_app.
-      * apply cwr2_nodup, non_rel_nodup.
-      * apply FinFun.Injective_map_NoDup; [intros u v E; inversion E; reflexivity|apply NoDup_filter; exact Hnd].
-      * intros [a b] H1 H2. apply in_cwr2_fwd in H1. destruct H1 as [H1 _]. apply in_non_rel in H1.
-        apply in_map_iff in H2. destruct H2 as [c [E H2]]. inversion E; subst. apply in_rel in H2.
-        destruct H1, H2. congruence.
-    + intros a b. rewrite !in_app_iff, !in_map_iff. intros [H1|[c [E1 H1]]] [H2|[d [E2 H2]]].
-      * eapply cwr2_orient; [apply non_rel_nodup|eassumption|eassumption].
-      * inversion E2; subst. apply in_cwr2_fwd in H1. destruct H1 as [_ H1]. apply in_non_rel in H1.
-        apply in_rel in H2. destruct H1, H2. congruence.
-      * inversion E1; subst. apply in_cwr2_fwd in H2. destruct H2 as [_ H2]. apply in_non_rel in H2.
-        apply in_rel in H1. destruct H1, H2. congruence.
-      * inversion E1; inversion E2; subst. congruence.
-  - split.
-    + apply NoDup_filter, cwr2_nodup, Hnd.
-    + intros a b H1 H2. apply filter_In in H1, H2. eapply cwr2_orient; [exact Hnd|apply H1|apply H2].
+  intros [H1 H2]. split; [apply NoDup_filter; exact H1|].
+  intros a b Ha Hb. apply filter_In in Ha, Hb. apply H2; tauto.
+Qed.
+
+Lemma once_3mr_base cols label : NoDup cols ->
+  once (cwr2 (non_rel_columns cols) ++ map (fun c => (c, label)) (rel_columns cols)).
+Proof.
+  intros Hnd. split.
+  - apply nodup_app.
+    + apply cwr2_nodup, non_rel_nodup.
+    + apply FinFun.Injective_map_NoDup; [intros u v E; inversion E; reflexivity|apply NoDup_filter; exact Hnd].
+    + intros [a b] H1 H2. apply in_cwr2_fwd in H1. destruct H1 as [H1 _]. apply in_non_rel in H1.
+      apply in_map_iff in H2. destruct H2 as [c [E H2]]. inversion E; subst. apply in_rel in H2.
+      destruct H1, H2. congruence.
+  - intros a b. rewrite !in_app_iff, !in_map_iff. intros [H1|[c [E1 H1]]] [H2|[d [E2 H2]]].
+    + eapply cwr2_orient; [apply non_rel_nodup|eassumption|eassumption].
+    + inversion E2; subst. apply in_cwr2_fwd in H1. destruct H1 as [_ H1]. apply in_non_rel in H1.
+      apply in_rel in H2. destruct H1, H2. congruence.
+    + inversion E1; subst. apply in_cwr2_fwd in H2. destruct H2 as [_ H2]. apply in_non_rel in H2.
+      apply in_rel in H1. destruct H1, H2. congruence.
+    + inversion E1; inversion E2; subst. congruence.
+Qed.
+
+Lemma diagonal_nodup base cols label : NoDup cols -> NoDup (diagonal base cols label).
+Proof.
+  intros H. unfold diagonal. apply FinFun.Injective_map_NoDup; [intros u v E; inversion E; reflexivity|].
+  apply NoDup_filter. exact H.
+Qed.
+
+Lemma once_with_diagonal base cols label : NoDup cols -> once base -> once (base ++ diagonal base cols label).
+Proof.
+  intros Hnd [H1 H2]. split.
+  - apply nodup_app; [exact H1|apply diagonal_nodup; exact Hnd|].
+    intros [a b] Hb Hd. apply in_diagonal in Hd. destruct Hd as [<- [_ [_ Hn]]]. contradiction.
+  - intros a b. rewrite !in_app_iff. intros [Ha|Ha] [Hb|Hb].
+    + apply H2; assumption.
+    + apply in_diagonal in Hb. destruct Hb as [E _]. congruence.
+    + apply in_diagonal in Ha. tauto.
+    + apply in_diagonal in Ha. tauto.
+Qed.
+
+(* every mode: the candidate list is duplicate-free and holds one orientation of each pair *)
+Theorem cands_once cols h tro label : NoDup cols -> once (candidates cols h tro label).
+Proof.
+  intros Hnd. unfold candidates.
+  assert (Hb : once (if is_3mr h then cwr2 (non_rel_columns cols) ++ map (fun c => (c, label)) (rel_columns cols)
+                     else if is_tonly tro then filter (has_label label) (cwr2 cols) else cwr2 cols)).
+  { destruct (is_3mr h); [apply once_3mr_base; exact Hnd|].
+    destruct (is_tonly tro); [apply once_filter|]; apply once_cwr2; exact Hnd. }
+  destruct (is_tonly tro); [exact Hb|]. apply once_with_diagonal; assumption.
 Qed.
 
 Lemma ucount_cons p q l : ucount p (q :: l) = (if upair_eqb p q then 1 else 0) + ucount p l.
@@ -916,55 +975,143 @@ Proof. induction nb as [|k IH]; intros s; [constructor|]. cbn [select_run]. cons
 Lemma select_run_length cands cap' nb : forall s, length (select_run s cands cap' nb) = nb.
 Proof. induction nb as [|k IH]; intros s; [reflexivity|]. cbn [select_run length]. rewrite IH. reflexivity. Qed.
 
+(* ---------- the reference-model filter ---------- *)
+Lemma in_ref_filter refs cands p :
+  In p (ref_filter refs cands) <-> In p cands /\ ~ In (fst p) refs /\ ~ In (snd p) refs.
+Proof.
+  unfold ref_filter. rewrite filter_In, andb_true_iff, !negb_true_iff, !memb_false. tauto.
+Qed.
+
+Theorem uin_ref_filter refs cands a b :
+  uin (a, b) (ref_filter refs cands) <-> uin (a, b) cands /\ ~ In a refs /\ ~ In b refs.
+Proof. unfold uin, swapp. cbn [fst snd]. rewrite !in_ref_filter. cbn [fst snd]. tauto. Qed.
+
+Lemma filter_all_true {A} (f : A -> bool) l : (forall x, f x = true) -> filter f l = l.
+Proof. intros H. induction l as [|x l IH]; [reflexivity|]. cbn [filter]. rewrite H, IH. reflexivity. Qed.
+
+Lemma ref_filter_nil cands : ref_filter [] cands = cands.
+Proof. unfold ref_filter. apply filter_all_true. intros p. reflexivity. Qed.
+
+Lemma ref_filter_incl refs cands : incl (ref_filter refs cands) cands.
+Proof. intros p H. apply in_ref_filter in H. tauto. Qed.
+
+Lemma once_ref_filter refs cands : once cands -> once (ref_filter refs cands).
+Proof. apply once_filter. Qed.
+
+Lemma closed_pairsb_ref_filter cols refs cands :
+  closed_pairsb cols cands = true -> closed_pairsb cols (ref_filter refs cands) = true.
+Proof.
+  rewrite !closed_pairsb_Forall, !Forall_forall. intros H p Hp. apply H, (ref_filter_incl refs cands), Hp.
+Qed.
+
+Lemma ref_names_inactive h ref : (ref = None \/ memb h prior_heurs = false) -> ref_names h ref = [].
+Proof. unfold ref_names. intros [->|H]; [reflexivity|]. destruct ref; [rewrite H|]; reflexivity. Qed.
+
+(* one call of mixed_rank_graph under a prior heuristic with a reference model: the candidates touching a reference
+   feature are dropped before the cap *)
+Definition valid_batch_ref (cols : list str) (h tro label : str) (cap : Z) (refs : list str) (rows : list row) : Prop :=
+  exists ev scores, selected_ok (ref_filter refs (candidates cols h tro label)) (eff_cap h cap) ev
+                    /\ length scores = length ev /\ rows = build_rows h ev scores.
+
+Lemma valid_batch_is_ref_nil cols h tro label cap rows :
+  valid_batch cols h tro label cap rows <-> valid_batch_ref cols h tro label cap [] rows.
+Proof. unfold valid_batch, valid_batch_ref. rewrite ref_filter_nil. reflexivity. Qed.
+
+Theorem batch_ref_rows_spec cols h tro label cap refs rows : In label cols ->
+  valid_batch_ref cols h tro label cap refs rows ->
+  rows_spec cols h (ref_filter refs (candidates cols h tro label)) (eff_cap h cap) rows.
+Proof.
+  intros Hl [ev [scores [Hs [Hlen ->]]]]. apply build_rows_spec; [|exact Hs|exact Hlen].
+  intros a b H. apply (cands_closed cols h tro label Hl a b). apply (ref_filter_incl refs _ _ H).
+Qed.
+
+(* evaluated pairs = requested pairs minus those touching a reference feature *)
+Theorem batch_ref_requested cols h tro label cap refs rows : In label cols ->
+  valid_batch_ref cols h tro label cap refs rows ->
+  forall a b s, In (a, b, s) rows ->
+    spec_pairb cols h tro label (a, b) = true /\ ~ In a refs /\ ~ In b refs /\ In a cols /\ In b cols.
+Proof.
+  intros Hl V a b s Hr. pose proof (batch_ref_rows_spec _ _ _ _ _ _ _ Hl V) as S.
+  pose proof (rows_spec_requested _ _ _ _ _ S (a, b, s) Hr) as U. unfold rp in U. cbn [fst] in U.
+  apply uin_ref_filter in U. destruct U as [U [Ha Hb]]. split; [apply spec_pairb_iff; exact U|].
+  split; [exact Ha|]. split; [exact Hb|]. apply (rs_closed _ _ _ _ _ S (a, b, s) Hr).
+Qed.
+
+(* ... and nothing is lost but by the cap: when the cap does not bind every remaining requested pair is evaluated *)
+Theorem batch_ref_complete cols h tro label cap refs rows :
+  (Z.of_nat (length (ref_filter refs (candidates cols h tro label))) <= eff_cap h cap)%Z ->
+  valid_batch_ref cols h tro label cap refs rows ->
+  forall a b, spec_pairb cols h tro label (a, b) = true -> ~ In a refs -> ~ In b refs ->
+    exists s, In (a, b, s) rows \/ In (b, a, s) rows.
+Proof.
+  intros Hcap [ev [scores [[Hlen [rest HP]] [Hsc ->]]]] a b Hspec Ha Hb.
+  set (F := ref_filter refs (candidates cols h tro label)) in *.
+  assert (Hrest : rest = []).
+  { apply length_zero_iff_nil. pose proof (Permutation_length HP) as E. rewrite app_length in E.
+    unfold slice_len in Hlen. destruct (Z.ltb_spec (eff_cap h cap) 0); lia. }
+  subst rest. rewrite app_nil_r in HP.
+  assert (U : uin (a, b) ev).
+  { assert (U0 : uin (a, b) F) by (apply uin_ref_filter; split; [apply spec_pairb_iff; exact Hspec|tauto]).
+    destruct U0 as [U0|U0]; [left|right]; (eapply Permutation_in; [symmetry; exact HP|exact U0]). }
+  assert (G : forall x y, In (x, y) ev -> exists s, In (x, y, s) (build_rows h ev scores)).
+  { intros x y Hin. unfold build_rows. destruct (is_const h).
+    - exists 0%N. unfold constant_rows. apply in_map_iff. exists (x, y). split; [reflexivity|exact Hin].
+    - assert (Hm : In (x, y) (map rp (triplets ev scores))) by (rewrite (rp_triplets ev scores Hsc); exact Hin).
+      apply in_map_iff in Hm. destruct Hm as [[[x' y'] s] [E Hr]]. unfold rp in E. cbn [fst] in E. inversion E; subst.
+      exists s. apply in_mirror. left. exact Hr. }
+  destruct U as [U|U]; unfold swapp in U; cbn [fst snd] in U; destruct (G _ _ U) as [s Hs]; exists s; tauto.
+Qed.
+
 (* what an accepted observation satisfies *)
 Theorem check_sound c o : In (c_label c) (c_cols c) -> C06_check c o = true ->
   (forall p, uin p (o_cands o) <-> uin p (C06_cands c))
   /\ o_cap o = eff_cap (c_heur c) (c_cap c)
-  /\ Forall (rows_spec (c_cols c) (c_heur c) (o_cands o) (o_cap o)) (o_rows o).
+  /\ Forall (rows_spec (c_cols c) (c_heur c) (ref_filter (C06_refs c) (o_cands o)) (o_cap o)) (o_rows o).
 Proof.
   intros Hl H. unfold C06_check in H. rewrite !andb_true_iff in H. destruct H as [[H1 H2] H3].
   pose proof (cands_okb_fast_closed _ _ _ _ _ H1) as Hc. rewrite (cands_okb_fast_eq _ _ _ _ _ Hc) in H1.
   split; [apply (cands_okb_iff _ _ _ _ _ Hl); exact H1|]. split; [apply Z.eqb_eq; exact H2|].
   apply Forall_forall. intros rows Hr. rewrite forallb_forall in H3. apply rows_okb_iff.
-  rewrite <- (rows_okb_fast_eq _ _ _ _ _ Hc). apply H3, Hr.
+  rewrite <- (rows_okb_fast_eq _ _ _ _ _ (closed_pairsb_ref_filter _ (C06_refs c) _ Hc)). apply H3, Hr.
 Qed.
 
 (* the transcription is accepted by the checker, whatever the scorer answers *)
 Theorem model_ok c scores : In (c_label c) (c_cols c) ->
-  (forall e s, In (e, s) (combine (select_run [] (C06_cands c) (eff_cap (c_heur c) (c_cap c)) (c_batches c)) scores) ->
+  (forall e s, In (e, s) (combine (select_run [] (ref_filter (C06_refs c) (C06_cands c)) (eff_cap (c_heur c) (c_cap c)) (c_batches c)) scores) ->
                length s = length e) ->
   C06_check c (C06_model c scores) = true.
 Proof.
-  intros Hl Hs. unfold C06_check, C06_model. cbn [o_cands o_cap o_rows]. rewrite !andb_true_iff. split; [split|].
-  - unfold C06_cands. rewrite (cands_okb_fast_eq _ _ _ _ _ (candidates_closedb _ (c_heur c) (c_tro c) _ Hl)).
+  intros Hl Hs. unfold C06_check, C06_model. cbn [o_cands o_cap o_rows]. rewrite !andb_true_iff.
+  pose proof (candidates_closedb _ (c_heur c) (c_tro c) _ Hl) as Hc. split; [split|].
+  - unfold C06_cands. rewrite (cands_okb_fast_eq _ _ _ _ _ Hc).
     apply (cands_okb_iff _ _ _ _ _ Hl). intros p. reflexivity.
   - apply Z.eqb_refl.
   - apply forallb_forall. intros rows Hr. apply in_map_iff in Hr. destruct Hr as [[e s] [<- Hes]].
-    unfold C06_cands. rewrite (rows_okb_fast_eq _ _ _ _ _ (candidates_closedb _ (c_heur c) (c_tro c) _ Hl)).
+    unfold C06_cands. rewrite (rows_okb_fast_eq _ _ _ _ _ (closed_pairsb_ref_filter _ (C06_refs c) _ Hc)).
     apply rows_okb_iff. cbn [fst snd]. apply build_rows_spec.
-    + apply cands_closed. exact Hl.
-    + pose proof (select_run_ok (C06_cands c) (eff_cap (c_heur c) (c_cap c)) (c_batches c) []) as F.
+    + intros a b H. apply (cands_closed _ (c_heur c) (c_tro c) _ Hl a b). apply (ref_filter_incl _ _ _ H).
+    + pose proof (select_run_ok (ref_filter (C06_refs c) (C06_cands c)) (eff_cap (c_heur c) (c_cap c)) (c_batches c) []) as F.
       rewrite Forall_forall in F. apply F. apply in_combine_l in Hes. exact Hes.
     + apply Hs. exact Hes.
 Qed.
 
 (* ---------- Constant: each selected combination listed once, score 0, never mirrored ---------- *)
-Theorem constant_once cols h tro label cap rows : is_const h = true ->
-  valid_batch cols h tro label cap rows ->
-  selected_ok (candidates cols h tro label) (eff_cap h cap) (map rp rows)
+Theorem constant_once cols h tro label cap refs rows : is_const h = true ->
+  valid_batch_ref cols h tro label cap refs rows ->
+  selected_ok (ref_filter refs (candidates cols h tro label)) (eff_cap h cap) (map rp rows)
   /\ (forall r, In r rows -> snd r = 0%N)
-  /\ length rows = slice_len (length (candidates cols h tro label)) (eff_cap h cap)
-  /\ (NoDup cols -> is_tonly tro = true -> forall p, ucount p (map rp rows) <= 1).
+  /\ length rows = slice_len (length (ref_filter refs (candidates cols h tro label))) (eff_cap h cap)
+  /\ (NoDup cols -> forall p, ucount p (map rp rows) <= 1).
 Proof.
   intros Hk [ev [scores [Hs [Hlen ->]]]]. unfold build_rows. rewrite Hk. rewrite rp_constant.
   split; [exact Hs|]. split; [|split].
   - intros r Hr. unfold constant_rows in Hr. apply in_map_iff in Hr. destruct Hr as [p [<- _]]. reflexivity.
   - unfold constant_rows. rewrite map_length. apply Hs.
-  - intros Hnd Ht p. pose proof (ucount_selected p _ _ _ Hs) as H1.
-    destruct (cands_once cols h tro label Hnd Ht) as [N1 N2]. pose proof (ucount_le_1 p _ N1 N2). lia.
+  - intros Hnd p. pose proof (ucount_selected p _ _ _ Hs) as H1.
+    destruct (once_ref_filter refs _ (cands_once cols h tro label Hnd)) as [N1 N2]. pose proof (ucount_le_1 p _ N1 N2). lia.
 Qed.
 
-(* ---------- pairwise mode, list level: non-label self-pairs are listed (hence evaluated) twice ---------- *)
+(* ---------- list level: with duplicate-free columns every requested pair is listed exactly once, nothing else is listed ---------- *)
 Lemma uin_ucount_pos p l : uin p l -> 0 < ucount p l.
 Proof.
   intros [H|H]; apply in_split in H; destruct H as [u [v ->]]; rewrite ucount_app, ucount_cons.
@@ -973,28 +1120,22 @@ Proof.
     destruct p; reflexivity.
 Qed.
 
-Lemma diagonal_nodup cols label : NoDup cols -> NoDup (diagonal cols label).
+Theorem cands_multiplicity cols h tro label p : NoDup cols ->
+  ucount p (candidates cols h tro label) = if spec_pairb cols h tro label p then 1 else 0.
 Proof.
-  intros H. unfold diagonal. apply FinFun.Injective_map_NoDup; [intros u v E; inversion E; reflexivity|].
-  apply NoDup_filter. exact H.
+  intros Hnd. destruct (cands_once cols h tro label Hnd) as [N1 N2]. pose proof (ucount_le_1 p _ N1 N2) as Hle.
+  destruct (spec_pairb cols h tro label p) eqn:E.
+  - apply spec_pairb_iff, uin_ucount_pos in E. lia.
+  - apply ucount_zero. intros U. apply spec_pairb_iff in U. congruence.
 Qed.
 
 Theorem pairwise_multiplicity cols h tro label a b :
   NoDup cols -> is_3mr h = false -> is_tonly tro = false -> In a cols -> In b cols ->
-  ucount (a, b) (candidates cols h tro label) = if str_eqb a b && negb (str_eqb a label) then 2 else 1.
+  ucount (a, b) (candidates cols h tro label) = 1.
 Proof.
-  intros Hnd H3 Ht Ha Hb. unfold candidates. rewrite H3, Ht, ucount_app.
-  assert (E1 : ucount (a, b) (cwr2 cols) = 1).
-  { assert (ucount (a, b) (cwr2 cols) <= 1)
-      by (apply ucount_le_1; [apply cwr2_nodup; exact Hnd|intros x y; apply cwr2_orient; exact Hnd]).
-    assert (0 < ucount (a, b) (cwr2 cols)) by (apply uin_ucount_pos, uin_cwr2; tauto). lia. }
-  assert (E2 : ucount (a, b) (diagonal cols label) <= 1).
-  { apply ucount_le_1; [apply diagonal_nodup; exact Hnd|]. intros x y H _. apply in_diagonal in H. tauto. }
-  rewrite E1. destruct (str_eqb a b && negb (str_eqb a label)) eqn:E.
-  - apply andb_true_iff in E. destruct E as [Eab En]. apply str_eqb_eq in Eab. apply negb_true_iff, str_eqb_neq in En.
-    assert (0 < ucount (a, b) (diagonal cols label)) by (apply uin_ucount_pos, uin_diagonal; tauto). lia.
-  - rewrite ucount_zero; [reflexivity|]. rewrite uin_diagonal. intros [Eab [_ En]].
-    apply str_eqb_eq in Eab. apply str_eqb_neq in En. rewrite Eab, En in E. discriminate.
+  intros Hnd H3 Ht Ha Hb. rewrite (cands_multiplicity cols h tro label (a, b) Hnd).
+  replace (spec_pairb cols h tro label (a, b)) with true; [reflexivity|]. symmetry.
+  apply spec_pairb_iff, (cands_pairwise cols h tro label H3 Ht). tauto.
 Qed.
 
 (* ---------- the clamp ---------- *)
@@ -1063,10 +1204,10 @@ Example ex_modes :
   NoDup ex_cols /\ In ex_label ex_cols
   /\ is_3mr ex_3mr = true /\ is_3mr ex_mi = false /\ is_tonly s_True = true /\ is_tonly ex_false = false
   /\ length (candidates ex_cols ex_mi s_True ex_label) = 5
-  /\ length (candidates ex_cols ex_mi ex_false ex_label) = 19
+  /\ length (candidates ex_cols ex_mi ex_false ex_label) = 15
   /\ candidates ex_cols ex_3mr s_True ex_label
      = cwr2 [[97]; [97; 98]; [98]; [108; 97; 98]]%N ++ [([97; 32; 65; 78; 68; 95; 82; 69; 76; 32; 98]%N, ex_label)]
-  /\ length (candidates ex_cols ex_3mr ex_false ex_label) = 15
+  /\ length (candidates ex_cols ex_3mr ex_false ex_label) = 12
   /\ eff_cap ex_3mr 20000 = 10000%Z /\ eff_cap ex_mi 20000 = 20000%Z.
 Proof.
   split; [|vm_compute; intuition].
@@ -1074,20 +1215,34 @@ Proof.
 Qed.
 
 Example ex_batch :
-  let c := mkCase ex_cols ex_mi ex_false ex_label 4 2 in
+  let c := mkCase ex_cols ex_mi ex_false ex_label 4 2 None in
   let o := C06_model c [[5; 6; 7; 8]; [1; 2; 3; 4]]%N in
   C06_check c o = true
   /\ map (@length row) (o_rows o) = [8; 8]
   /\ select_run [] (C06_cands c) 4 2 = [firstn 4 (C06_cands c); firstn 4 (skipn 4 (C06_cands c))]
-  /\ C06_check (mkCase ex_cols s_Constant s_True ex_label 3 1) (C06_model (mkCase ex_cols s_Constant s_True ex_label 3 1) [[]]) = true.
+  /\ C06_check (mkCase ex_cols s_Constant s_True ex_label 3 1 None) (C06_model (mkCase ex_cols s_Constant s_True ex_label 3 1 None) [[]]) = true.
 Proof. vm_compute. intuition. Qed.
 
 (* dropping the mirror row, mirroring with another score, or listing a foreign pair is rejected *)
 Example ex_rejects :
-  let c := mkCase ex_cols ex_mi s_True ex_label 2 1 in
+  let c := mkCase ex_cols ex_mi s_True ex_label 2 1 None in
   let cands := C06_cands c in
   C06_check c (mkObs cands 2 [[([98], ex_label, 5); (ex_label, [98], 5); (ex_label, ex_label, 6); (ex_label, ex_label, 6)]])%N = true
   /\ C06_check c (mkObs cands 2 [[([98], ex_label, 5); (ex_label, ex_label, 6)]])%N = false
   /\ C06_check c (mkObs cands 2 [[([98], ex_label, 5); (ex_label, [98], 7); (ex_label, ex_label, 6); (ex_label, ex_label, 6)]])%N = false
   /\ C06_check c (mkObs cands 2 [[([98], [97], 5); ([97], [98], 5); (ex_label, ex_label, 6); (ex_label, ex_label, 6)]])%N = false.
+Proof. vm_compute. intuition. Qed.
+
+(* the reference-model filter: under surrogate-SGD with reference features {'b,a'->'a AND b' (absent), 'ab', 'zz'} every pair
+   touching 'ab' disappears (5 of 15), nothing else; under a non-prior heuristic the same file changes nothing *)
+Definition ex_sgd : str := [115; 117; 114; 114; 111; 103; 97; 116; 101; 45; 83; 71; 68]%N.
+Definition ex_ref : option (list str) := Some [[98; 44; 97]; [97; 98]; [122; 122]]%N.
+Example ex_ref_filter :
+  norm_ref [98; 44; 97]%N = [97; 32; 65; 78; 68; 32; 98]%N
+  /\ split_on 44 [44; 97; 44]%N = [[]; [97]; []]%N
+  /\ length (ref_filter (ref_names ex_sgd ex_ref) (candidates ex_cols ex_sgd ex_false ex_label)) = 10
+  /\ ref_names ex_mi ex_ref = [] /\ ref_names ex_sgd None = []
+  /\ (let c := mkCase ex_cols ex_sgd ex_false ex_label 7 1 ex_ref in
+      C06_check c (C06_model c [[1; 2; 3; 4; 5; 6; 7]]%N) = true
+      /\ map (@length row) (o_rows (C06_model c [[1; 2; 3; 4; 5; 6; 7]]%N)) = [14]).
 Proof. vm_compute. intuition. Qed.
